@@ -33,7 +33,7 @@ FAMILIES = ['cell-cards', 'cell-cards-np', 'data-n', 'data-np-two-cards',
             'mixed-sources', 'one-particle-zero-cell', 'one-particle-zero-data',
             'filled-cells', 'extra-keywords',
             'zero-first', 'zero-last', 'all-but-one-zero', 'like-but-imp0',
-            'like-but-imp1']
+            'like-but-imp1', 'like-data-card']
 _PER = {'quick': 10, 'thorough': 3000}
 
 
@@ -147,6 +147,36 @@ def build(case):
             new.imp = {'n': '2'}
         deck.cells.append(new)
         deck.tags.add('like.imp')
+    if fam == 'like-data-card':
+        # LIKE cells that take their importance from the IMP data card, at
+        # their own position in the cell block - not at the position of the
+        # cell they copy
+        from ..gen_surf import tr_spec
+        from ..mcnp_ref import Motion
+        vals_by_cell = dict(zip([c.id for c in cells], all_vals))
+        nlike = rng.randint(1, 3)
+        for k in range(nlike):
+            base = rng.choice(cells[:ncell])
+            new = base.copy()
+            new.id = ncell + 2 + k
+            new.like = base.id
+            new.but = ['trcl']
+            shift = [30.0 + 25.0 * k, 0.0, 0.0]
+            new.trcl = tr_spec(rng, Motion(shift), 'inline3')
+            new.imp = None
+            # the opposite zero-ness of the copied cell, mostly
+            base_zero = vals_by_cell[base.id] == '0'
+            val = rng.choice(['1', '2']) if base_zero else '0'
+            if rng.random() < 0.2:
+                val = vals_by_cell[base.id]
+            pos = rng.randint(cells.index(base) + 1, len(cells))
+            cells.insert(pos, new)
+            all_vals.insert(pos, val)
+            vals_by_cell[new.id] = val
+        for cel in cells:
+            cel.imp = None
+        deck.imp_cards.append(('n', list(all_vals)))
+        deck.tags.add('like.data-card')
     if fam == 'extra-keywords':
         # other legal cell parameters that have nothing to do with the
         # geometry conversion
